@@ -6,6 +6,8 @@
 package simsync
 
 import (
+	"time"
+	"sync/atomic"
 	"fmt"
 	"net"
 	"path/filepath"
@@ -273,6 +275,26 @@ func Keys[K comparable, V any](m map[K]V) []K {
 	}
 	sort.Slice(ks, func(i, j int) bool { return render(ks[i]) < render(ks[j]) })
 	return ks
+}
+
+// TimerHook, when set, is called at the start of every AfterFunc callback with the creation
+// rank of its timer (timers created earlier have smaller ranks).
+var TimerHook func(rank uint64)
+
+var timerRank atomic.Uint64
+
+// AfterFunc is time.AfterFunc; the callback first reports the rank of its timer. Several
+// timers that fire at the same (virtual) instant are started by the runtime in the order of
+// its timer heap, which also holds unrelated real-time timers; the scheduler orders the
+// callbacks by their creation rank instead.
+func AfterFunc(d time.Duration, f func()) *time.Timer {
+	rank := timerRank.Add(1)
+	return time.AfterFunc(d, func() {
+		if h := TimerHook; h != nil {
+			h(rank)
+		}
+		f()
+	})
 }
 
 // Values returns the values of m ordered by Keys(m).
